@@ -147,10 +147,13 @@ fn check(t: &mut Tape, ctx: &mut Ctx) -> CheckResult {
         return refusal(t, ctx);
     }
     ctx.class("group:value");
-    let nin = t.range(0, 3);
+    let nin = t.range(0, ctx.mlen(3).min(70));
     let nops = t.range(0, sz.edges + 3);
-    let nout = t.range(0, 4);
-    let d = gen::write_once_dag(t, SIG, nin, nops, nout);
+    let nout = t.range(0, ctx.mlen(4).min(70));
+    // medium cases: half of them with one very wide layer
+    let flat = ctx.medium && t.chance(1, 2);
+    ctx.class_if(flat, "wide-layer");
+    let d = gen::write_once_dag_shaped(t, SIG, if flat { nin.max(1) } else { nin }, nops, nout, flat);
     let inputs: Vec<u64> = (0..d.s.len()).map(|_| t.small_u64()).collect();
     ctx.set_dump(format!("{} inputs {:?}", d.pretty(), inputs));
     eval_case(ctx, &d, &inputs)?;
